@@ -336,6 +336,11 @@ def replay_real(ctx, q, bins, inputs, tag):
     first_fail = next((i for i, l in enumerate(lines_) if l.startswith('ASSERT-FAIL ')), None)
     first_assume = next((i for i, l in enumerate(lines_) if l.startswith('REPLAY-ASSUME-FAILED') or l.startswith('REPLAY-RANGE')), None)
     assume_failed = first_assume is not None and (first_fail is None or first_assume < first_fail) and not san
+    crashed = (rc not in (0,)) and not any(l.startswith('DIGEST') for l in lines_) and not san
+    if crashed:
+        # the real build died (std::terminate, abort, signal) on the counterexample input: that reproduces a trap found by CBMC
+        fails = fails + ['real build terminated abnormally (rc=%s): %s' % (rc, (err.strip().splitlines() or ['?'])[-1][:200])]
+        assume_failed = False
     meta = {'property': ctx.prop, 'query': q.name, 'unit': q.unit.name, 'harness': os.path.relpath(q.harness, VERIF) if q.harness.startswith(VERIF) else q.harness,
             'defines': q.defines, 'known_excluded': q.known, 'inputs': inputs, 'cbmc_failed': tag,
             'real_failed_checks': fails, 'real_sanitizer': san, 'real_stdout': out[-3000:], 'real_stderr': err[-3000:],
@@ -357,7 +362,7 @@ def run_query(ctx, q, cache, lock):
         if q.validate_iters:
             v = validate_cached(ctx, q, bins, cache, lock)
             r['translation_validation'] = v
-            sanitizer_abort = (not v['agree']) and ('Sanitizer' in v['real'] or 'runtime error' in v['real'] or 'ABORTING' in v['real'] or v['rc'][1] == 23)
+            sanitizer_abort = (not v['agree']) and ('Sanitizer' in v['real'] or 'runtime error' in v['real'] or 'ABORTING' in v['real'] or v['rc'][1] not in (0, None))   # incl. std::terminate/abort/signal
             if not v['agree'] and not sanitizer_abort:
                 r['status'] = 'inconclusive'
                 r['reason'] = 'translated C and real g++ build disagree on random inputs (ll2c/model bug?)'
